@@ -22,7 +22,10 @@ RULE = ("kind sim: a parent screen (1-5 plates, plate-uniform masks, observation
         "(an accepted reveal must not newly observe an all-zero plate: KNOWN finding reveal-zero-guard-is-joint; a refusal is "
         "justified by any named all-zero / NaN plate); the three plate counters recomputed from plate names and mask alone (no Plate API) "
         "for every screen of the history and for screen_metadata.json; purity: after every returned screen all earlier screens of the "
-        "history are re-read and must be unchanged (set_observed excepted).")
+        "history are re-read and must be unchanged (set_observed excepted).  40 further sim cases use parents whose plate NAMES are integer "
+        "literals that differ from the plate ids (\"1\"..\"12\" in string order, 1-based, descending, zero-padded) with reveal_plate CLI / "
+        "extract_screen_metadata CLI operations: `--plate-id 2 5` must observe exactly the plates with IDS 2 and 5 and the reported counter "
+        "must drop by the number of newly revealed plates.")
 THEOREMS = {
     "C12_atomic_invariant": "every screen reached from a constructed screen by any history of reveal/mask/unmask/save+load (any variant) has a plate-uniform mask",
     "C12_atomic_invariant_lifecycle": "the same for both halves of any hold-out split",
@@ -113,6 +116,7 @@ EXPLANATION = ("Model: Model/Reveal.v (reveal_plates incl. guards, mask_screen, 
 THEOREMS.update({
     'C12_model_is_source_cli_reveal_plate': 'the translation of the whole function reveal_plate.main regenerated on this run equals, for every record L of library functions and all parsed arguments, Cli.cli_reveal_plate: reveal_plates(load(--screen), --plate-id list) saved to --output',
     'C12_model_is_source_cli_extract_screen_metadata': "the translation of the whole function extract_screen_metadata.main regenerated on this run equals Cli.cli_extract_screen_metadata: the JSON object's counters - every plate of the loaded screen counted once, as observed or as unobserved - next to n_unique_samples, n_unique_treatments, size, n_plates",
+    'C12_model_is_source_cli_extract_screen_metadata_counters': "instance with the library record filled by the TRANSLATED Screen.plates / ScreenBase.is_observed / n_plates / n_unique_samples / n_unique_treatments / size: on a constructed screen the written JSON counters are Model/Reveal.v's n_plates / n_unobserved_plates / n_observed_plates (the ones C12_unobserved_drop is about), size = number of rows",
     'C12_model_is_source_cli_reveal_plate_reveal': "instance over Model/Reveal.v with the library call standing for the TRANSLATED reveal_plates: the translated main = load, the model's reveal_plates (mappings carried), save",
 })
 EXPLANATION += ("  CLI wrappers: reveal_plate.main and extract_screen_metadata.main are re-translated as WHOLE functions on every run (Generated/SrcCli.v) and proved equal to Model/Cli.v.  These links trust the translator harness/py2gal.py (for these links extended by cfg typed_effects, kwcalls keys `module.function`, state_calls assigned to a tuple), the representation of Model/Cli.v (parsed arguments = a record of the plain argparse results, get_args() not translated = the primitive `get_args()` yielding that record; a main() denotes the list of (path, content) files it writes; `L` = ANY record of library functions over abstract types) and EXACTLY these primitives of harness/src_functions.py, each one field read / one library or constructor call standing for the function of that name (whose own link, where it exists, is the one of its property): CLI_REVEAL_PLATE: the fields of `args` read as the record's projections (a store to one is refused); ignored: log_config.configure_logging(args), logger.info/warning; Screen.load_h5(p), reveal_plates(s, ids), typed effect r.save_h5(p). CLI_EXTRACT_METADATA: the fields of `args` read as the record's projections (a store to one is refused); ignored: log_config.configure_logging(args), logger.info/warning; Screen.load_h5(p), s.plates, p.is_observed, s.n_unique_samples, s.n_unique_treatments, s.size, s.n_plates, the dict literal with exactly the six keys n_unique_samples, n_unique_treatments, size, n_plates, n_unobserved_plates, n_observed_plates = the record of their values, open(p, 'w'), typed effect json.dump(o, f, indent=4) = append (f, o); the counting loop is translated. ")
@@ -329,6 +333,30 @@ def _lifecycle_names(rng, parent):
     return dict(parent, rows=[dict(r, p=ren[r["p"]]) for r in parent["rows"]])
 
 
+def _numeric_parent(rng):
+    style = rng.choice(["twelve", "one_based", "one_based", "descending", "offset", "padded"])
+    n_pl = 12 if style == "twelve" else rng.choice([2, 3, 4, 5, 6])
+    if style in ("twelve", "one_based"):
+        names = [str(i + 1) for i in range(n_pl)]
+    elif style == "descending":
+        names = [str(n_pl - 1 - i) for i in range(n_pl)]
+        names = [str(int(x) + 1) for x in names] if rng.random() < 0.5 else names
+    elif style == "offset":
+        off = rng.choice([2, 7, 9, 98])
+        names = [str(i + off) for i in range(n_pl)]
+    else:
+        names = ["%02d" % (i + 1) for i in range(n_pl)]
+    rng.shuffle(names)
+    observed = set(rng.sample(names, rng.choice([0, 1, 1, 2]) if n_pl > 2 else 0))
+    rows = []
+    for p in names:
+        for _ in range(rng.choice([1, 1, 2])):
+            rows.append(dict(s=rng.choice(["a", "b", "c"]), p=p, t=[[rng.choice(["x", "y", "z"]), rng.choice([1.0, 2.0])]],
+                             o=rng.choice(simlib.OBS), m=p in observed))
+    rng.shuffle(rows)
+    return dict(rows=rows, arity=1, ctrl="", obs_given=True, mask_given=True, tmap=None, smap=None)
+
+
 def gen(rng, tier):
     N = 1 if tier == "quick" else 10
     for i in range(300 * N):
@@ -339,6 +367,18 @@ def gen(rng, tier):
         test = rng.random() < (0.08 if fraction == 0.0 else 0.3)
         yield dict(kind="sim", parent=parent, fraction=fraction, seed=rng.randrange(10 ** 6), test=test,
                    ops=simlib.gen_ops(rng, with_setobs=True, cli=(rng.random() < 0.5)))
+    # plate NAMES that are integer literals different from the plate IDS (ids = ranks of the names in string order: "1" "10" "11"
+    # "12" "2" ...; 1-based names; names in descending order): `--plate-id 2 5` must reveal the plates with IDS 2 and 5
+    for i in range(40 * N):
+        parent = _numeric_parent(rng)
+        n_pl = len({r["p"] for r in parent["rows"]})
+        ops = []
+        for _ in range(rng.choice([1, 1, 2, 3])):
+            ids = rng.sample(range(n_pl), min(n_pl, rng.choice([1, 2, 2, 3])))
+            ops.append([rng.choice(["cli_reveal", "cli_reveal", "reveal"]), ids])
+            if rng.random() < 0.5:
+                ops.append(["meta_cli"])
+        yield dict(kind="sim", parent=parent, fraction=rng.choice([0.0, 0.0, 0.0, 0.5]), seed=rng.randrange(10 ** 6), test=False, ops=ops[:6])
     for i in range(120 * N):
         ctrl = rng.choice(sl.CTRLS)
         rows, a = sl.gen_rows(rng, ctrl=ctrl, uniform_plates=(rng.random() < 0.5))
@@ -382,6 +422,11 @@ def _features(desc, h):
                 f.append("newly_revealed")
         if o[0] == "setobs" and after is not None and not _uniform(after["mask"], after["plates"]):
             f.append("setobs_breaks_plate")
+    try:
+        if any(int(pn) != pi for pn, pi in zip(S["plates"], S["pids"])):
+            f.append("numeric_plate_names_differ_from_ids")
+    except ValueError:
+        pass
     return sorted(set(f))
 
 
